@@ -17,22 +17,18 @@ type GDay struct {
 var _ objecttypes.Value = GDay{}
 
 func MapGDay(lexicalForm string) (GDay, error) {
-	lexicalForm = xsdutil.WhiteSpaceCollapse(lexicalForm)
-
-	for _, layout := range []string{
+	parsed, layout, ok := parseTimeLexicalForm(xsdutil.WhiteSpaceCollapse(lexicalForm), gDayLexicalRE,
 		"---02",
 		"---02Z07:00",
-	} {
-		parsed, err := time.Parse(layout, lexicalForm)
-		if err == nil {
-			return GDay{
-				Time:   parsed,
-				Layout: layout,
-			}, nil
-		}
+	)
+	if !ok {
+		return GDay{}, rdf.ErrLiteralLexicalFormNotValid
 	}
 
-	return GDay{}, rdf.ErrLiteralLexicalFormNotValid
+	return GDay{
+		Time:   parsed,
+		Layout: layout,
+	}, nil
 }
 
 func (v GDay) AsObjectValue() rdf.ObjectValue {
